@@ -2,7 +2,8 @@
 From Coq Require Import String.
 From WG Require Import Base.Prelude Codes.Codes Codes.Statements BV.Model BV.RefSel BV.Bits
   BV.BitsFacts BV.Access BV.AccessStatements BV.AccessFacts BV.SelStatements BV.GreedyFacts
-  Flags.Props Flags.Statements Flags.PropsFacts Links.LoadLinkStatements.
+  Flags.Props Flags.Statements Flags.PropsFacts Par.Splice Par.SpliceFacts
+  Links.LoadLinkStatements.
 Require Import ZifyBool ZifyN ZifyNat.
 Local Open Scope N_scope.
 
@@ -55,6 +56,15 @@ Proof.
   rewrite (props_endianness le st f text Hw). split; reflexivity.
 Qed.
 
+Theorem link_load_par : S_link_load_par.
+Proof.
+  intros le st f text cuts g sels arrival rest Hw Hst Hg cs p Hcuts Hsels Hperm.
+  destruct (par_comp_eq_seq le cs p cuts g sels arrival Hcuts Hsels Hperm) as [Heq Hvalid].
+  eexists; eexists; split; [exact Heq|].
+  apply (link_load_seq le st f text g _ rest Hw Hst Hg Hvalid).
+Qed.
+
+Print Assumptions link_load_par.
 Print Assumptions link_written_codes_ok.
 Print Assumptions link_load_seq.
 Print Assumptions link_load_seq_greedy.
